@@ -110,6 +110,16 @@ fn run(ctx: &RunCtx) -> Report {
     };
     let mut plan = random_plan(&mut rng, 20, 30);
     plan.dead_bootstrap = 0;
+    // 1 run in 12 (own random stream): *a crowd of clients* - two or three storing nodes and 24..30 client-mode
+    // nodes that bootstrapped through them; a signed announcement is written and read back by one of the
+    // storing nodes. Clients never answer: none of them may stand between the reader and the live acker.
+    let mut crng = Rng::new(crate::rng::key(ctx.seed, &[crate::rng::tag("c01-client-crowd")]));
+    let crowd = !large && crng.chance(1, 12);
+    if crowd {
+        plan.servers = crng.usize(2, 3);
+        plan.clients = crng.usize(24, 30);
+        report.probe("client_crowd_runs", 1);
+    }
     if large {
         plan.servers = rng.usize(50, 300);
         plan.clients = rng.usize(0, 10);
@@ -123,6 +133,7 @@ fn run(ctx: &RunCtx) -> Report {
 
     // what is written, by whom
     let kind = rng.below(4);
+    let kind = if crowd { 3 } else { kind };
     let key_seed: [u8; 32] = rng.bytes(32).try_into().unwrap();
     let info_hash = rng.id();
     // value sizes: small, medium, and (1 in 4) at the BEP44 limit of 1000 bytes, where a reply that
@@ -365,6 +376,9 @@ fn run(ctx: &RunCtx) -> Report {
     report.probe(if gap > 45 * SEC { "reads_later_than_45s" } else { "reads_within_45s" }, 1);
     if let Some(r) = warm_reader.or(veteran) {
         reader_pool = vec![r];
+    }
+    if crowd {
+        reader_pool.retain(|h| net.servers.contains(h));
     }
     if reader_pool.is_empty() {
         report.vacuous = true;
